@@ -458,11 +458,13 @@ func specSliceCount(byteCount, sliceByteCount int) int {
 //@   loop 1
 //@     modifies nothing
 //@     invariant gIOFailed == old(gIOFailed) && i >= 0 && volumeCount >= 1 && volumeCount <= 131072 && e.parityShardCount <= 65536
+//@     invariant len(parityFile.unknownPackets) == 0
 //@   loop 2
 //@     modifies nothing
 //@     invariant gIOFailed == old(gIOFailed) && j >= 0 && j <= volumeCount && i + volumeCount <= e.parityShardCount
 //@     invariant fresh(recoveryFile.recoveryPackets) && e.parityShardCount <= 65536 && len(e.parityShards) >= e.parityShardCount
 //@     invariant len(recoveryFile.recoveryPackets) <= j
+//@     invariant len(parityFile.unknownPackets) == 0 && len(recoveryFile.unknownPackets) == 0
 
 // C17/C15 (create side): the name stored for input i is exactly Rel(basePath, filePaths[i]) (the
 // lexical relative path computed by the standard library from two absolute paths), never
@@ -542,5 +544,5 @@ func specSliceCount(byteCount, sliceByteCount int) int {
 //@ func writeFile
 //@   props C05 C17
 //@   assume-contract serialiser: frame assumed, body not verified
-//@   requires len(file.unknownPackets) == 0
+//@   requires @strict len(file.unknownPackets) == 0
 //@   modifies nothing
